@@ -11,6 +11,12 @@
  *   init <lht|fifo|lifo|lru> <max> <keyDtor 0|1> <valDtor 0|1> <hashmode>
  *   put <ident> <ptr> <val> | find <ident> | findmv <ident> | remove <ident> | clear
  *   mvend <ident> | uselru | getmru | destroy   (clean_up / aws_cache_destroy with its destructor calls observed)
+ * <hashmode> 0..3: the harness's own hash (spread, constant, two buckets, zero) over {ident, ptr} key objects;
+ * 4: C-string keys with aws_hash_c_string / aws_hash_callback_c_str_eq, 5: struct aws_byte_cursor keys with
+ * aws_hash_byte_cursor_ptr / aws_byte_cursor_eq, 6: struct aws_string keys with aws_hash_string /
+ * aws_hash_callback_string_eq.  In modes 4..6 identity i is a text of length 11,12,13,23,24,25,35,36,37 (i mod 9), pointer
+ * number q is a separate copy of it placed at byte alignment (i+q) mod 4 (lookups use a third copy at (i+2) mod 4), so
+ * equal keys reach the library's hash through all alignment paths of lookup3.
  * <ident> 1000 is the NULL key (legal for aws_hash_table: hash 42, equal to itself only; the user's hash / equality
  * callbacks never see it; its pointer number is always 0), <val> 0 is the NULL value.
  */
@@ -21,6 +27,7 @@
 #include <aws/common/linked_hash_table.h>
 #include <aws/common/lru_cache.h>
 #include <aws/common/private/hash_table_impl.h>
+#include <aws/common/string.h>
 #include <stdlib.h>
 #include <string.h>
 
@@ -47,7 +54,9 @@ static int s_hashmode;
 static bool s_key_dtor, s_val_dtor;
 static bool s_quiet; /* tearing down: destructor calls are not part of any op's output */
 
-static struct hkey *s_keys[MAX_IDENT][MAX_PTR]; /* live key objects */
+static void *s_keys[MAX_IDENT][MAX_PTR];   /* live key objects, as the library sees them */
+static void *s_keymem[MAX_IDENT][MAX_PTR]; /* the block to free for each */
+static unsigned s_probe_ident;
 static struct hval *s_vals[MAX_VALS];           /* live value objects */
 static size_t s_nvals;
 
@@ -87,11 +96,34 @@ static bool s_val_live(const void *p) {
     return false;
 }
 
+static bool s_key_where(const void *key, unsigned *ident, unsigned *ptr) {
+    for (unsigned i = 0; i < MAX_IDENT; ++i) {
+        for (unsigned q = 0; q < MAX_PTR; ++q) {
+            if (s_keys[i][q] == key) {
+                *ident = i;
+                *ptr = q;
+                return true;
+            }
+        }
+    }
+    return false;
+}
 static unsigned k_ident(const void *key) {
-    return key ? ((const struct hkey *)key)->ident : NULL_IDENT;
+    unsigned i = 0, q = 0;
+    if (!key) {
+        return NULL_IDENT;
+    }
+    if (key == s_probe) {
+        return s_probe_ident;
+    }
+    return s_key_where(key, &i, &q) ? i : 9999u;
 }
 static unsigned k_ptr(const void *key) {
-    return key ? ((const struct hkey *)key)->ptr : 0;
+    unsigned i = 0, q = 0;
+    if (!key) {
+        return 0;
+    }
+    return s_key_where(key, &i, &q) ? q : 99u;
 }
 static unsigned long v_val(const void *v) {
     return v ? ((const struct hval *)v)->val : 0;
@@ -141,14 +173,20 @@ static void s_on_key_destroy(void *p) {
         ++s_mon_key_dd;
         return;
     }
+    (void)k;
+    unsigned ki = 0, kq = 0;
+    HC_CHECK(s_key_where(p, &ki, &kq));
     if (!s_quiet) {
         HC_CHECK(s_nevs < MAX_EVS);
-        snprintf(s_evs[s_nevs++], sizeof(s_evs[0]), "k%u.%u", k->ident, k->ptr);
+        snprintf(s_evs[s_nevs++], sizeof(s_evs[0]), "k%u.%u", ki, kq);
     }
-    if (k->ident < MAX_IDENT && k->ptr < MAX_PTR && s_keys[k->ident][k->ptr] == k) {
-        s_keys[k->ident][k->ptr] = NULL;
+    s_keys[ki][kq] = NULL;
+    if (s_hashmode == 6) {
+        aws_string_destroy(s_keymem[ki][kq]);
+    } else {
+        free(s_keymem[ki][kq]);
     }
-    free(k);
+    s_keymem[ki][kq] = NULL;
 }
 
 static void s_on_val_destroy(void *p) {
@@ -211,8 +249,13 @@ static void s_reset(void) {
     s_kind = K_NONE;
     for (size_t i = 0; i < MAX_IDENT; ++i) {
         for (size_t p = 0; p < MAX_PTR; ++p) {
-            free(s_keys[i][p]);
+            if (s_hashmode == 6 && s_keymem[i][p]) {
+                aws_string_destroy(s_keymem[i][p]);
+            } else {
+                free(s_keymem[i][p]);
+            }
             s_keys[i][p] = NULL;
+            s_keymem[i][p] = NULL;
         }
     }
     for (size_t i = 0; i < s_nvals; ++i) {
@@ -300,7 +343,9 @@ static void s_print_state(void) {
             s_mon_dead_result);
         s_mon_key_uad = s_mon_key_dd = s_mon_val_dd = s_mon_dead_in_table = s_mon_dead_result = 0;
     }
-    s_print_impl();
+    if (s_hashmode < 4) {
+        s_print_impl(); /* the implementation-level model does not compute lookup3 */
+    }
 }
 
 /* W: the real hash table's slots (key pointer -> node, shown by the node's value) and both walks of
@@ -364,18 +409,87 @@ static void s_print_impl(void) {
     printf("\n");
 }
 
-static struct hkey *s_key_obj(unsigned ident, unsigned ptr) {
+/* the text of identity i in the string-key modes: lengths straddle the 12-byte blocks of lookup3 */
+static size_t s_key_text(unsigned ident, char *out) {
+    static const size_t lens[9] = {11, 12, 13, 23, 24, 25, 35, 36, 37};
+    size_t len = lens[ident % 9];
+    for (size_t j = 0; j < len; ++j) {
+        out[j] = (char)('a' + (ident * 7u + j * 3u + ident / 9u) % 26u);
+    }
+    out[len] = 0;
+    return len;
+}
+
+/* build the key object for the current mode around a text placed at byte alignment `off`; returns what the library sees */
+static void *s_build_key(unsigned ident, size_t off, void **mem) {
+    char text[64];
+    size_t len = s_key_text(ident, text);
+    if (s_hashmode == 4) {
+        char *block = malloc(len + 1 + 4);
+        memcpy(block + off, text, len + 1);
+        *mem = block;
+        return block + off;
+    }
+    if (s_hashmode == 5) {
+        struct aws_byte_cursor *c = malloc(sizeof(*c) + len + 4);
+        uint8_t *bytes = (uint8_t *)(c + 1) + off;
+        memcpy(bytes, text, len);
+        c->ptr = bytes;
+        c->len = len;
+        *mem = c;
+        return c;
+    }
+    struct aws_string *str = aws_string_new_from_array(aws_default_allocator(), (const uint8_t *)text, len);
+    *mem = str;
+    return str;
+}
+
+static void *s_key_obj(unsigned ident, unsigned ptr) {
     if (ident == NULL_IDENT) {
         return NULL;
     }
     HC_CHECK(ident < MAX_IDENT && ptr < MAX_PTR);
     if (!s_keys[ident][ptr]) {
-        struct hkey *k = malloc(sizeof(*k));
-        k->ident = ident;
-        k->ptr = ptr;
-        s_keys[ident][ptr] = k;
+        if (s_hashmode >= 4) {
+            s_keys[ident][ptr] = s_build_key(ident, (ident + ptr) % 4, &s_keymem[ident][ptr]);
+        } else {
+            struct hkey *k = malloc(sizeof(*k));
+            k->ident = ident;
+            k->ptr = ptr;
+            s_keys[ident][ptr] = k;
+            s_keymem[ident][ptr] = k;
+        }
     }
     return s_keys[ident][ptr];
+}
+
+/* the key a lookup is made with: never one of the stored pointers */
+static struct hkey s_probe_obj;
+static void *s_probe_mem;
+static const void *s_begin_probe(unsigned ident) {
+    s_probe_ident = ident;
+    s_probe_mem = NULL;
+    if (ident == NULL_IDENT) {
+        s_probe = NULL;
+    } else if (s_hashmode >= 4) {
+        s_probe = s_build_key(ident, (ident + 2) % 4, &s_probe_mem);
+    } else {
+        s_probe_obj.ident = ident;
+        s_probe_obj.ptr = 99;
+        s_probe = &s_probe_obj;
+    }
+    return s_probe;
+}
+static void s_end_probe(void) {
+    if (s_probe_mem) {
+        if (s_hashmode == 6) {
+            aws_string_destroy(s_probe_mem);
+        } else {
+            free(s_probe_mem);
+        }
+    }
+    s_probe_mem = NULL;
+    s_probe = NULL;
 }
 
 static void s_print_val(const char *what, void *p) {
@@ -403,23 +517,31 @@ int main(void) {
             s_key_dtor = atoi(t[3]) != 0;
             s_val_dtor = atoi(t[4]) != 0;
             s_hashmode = atoi(t[5]);
+            aws_hash_fn *hfn = s_hashmode == 4   ? aws_hash_c_string
+                               : s_hashmode == 5 ? aws_hash_byte_cursor_ptr
+                               : s_hashmode == 6 ? aws_hash_string
+                                                 : s_hash;
+            aws_hash_callback_eq_fn *efn = s_hashmode == 4   ? aws_hash_callback_c_str_eq
+                                           : s_hashmode == 5 ? (aws_hash_callback_eq_fn *)aws_byte_cursor_eq
+                                           : s_hashmode == 6 ? aws_hash_callback_string_eq
+                                                             : s_eq;
             aws_hash_callback_destroy_fn *kd = s_key_dtor ? s_on_key_destroy : NULL;
             aws_hash_callback_destroy_fn *vd = s_val_dtor ? s_on_val_destroy : NULL;
             if (max == 0) {
                 printf("bad-op\n");
             } else if (!strcmp(t[1], "lht")) {
-                HC_CHECK(aws_linked_hash_table_init(&s_lht, hc_allocator(), s_hash, s_eq, kd, vd, max) == AWS_OP_SUCCESS);
+                HC_CHECK(aws_linked_hash_table_init(&s_lht, hc_allocator(), hfn, efn, kd, vd, max) == AWS_OP_SUCCESS);
                 s_kind = K_LHT;
             } else if (!strcmp(t[1], "fifo")) {
-                s_cache = aws_cache_new_fifo(hc_allocator(), s_hash, s_eq, kd, vd, max);
+                s_cache = aws_cache_new_fifo(hc_allocator(), hfn, efn, kd, vd, max);
                 HC_CHECK(s_cache);
                 s_kind = K_FIFO;
             } else if (!strcmp(t[1], "lifo")) {
-                s_cache = aws_cache_new_lifo(hc_allocator(), s_hash, s_eq, kd, vd, max);
+                s_cache = aws_cache_new_lifo(hc_allocator(), hfn, efn, kd, vd, max);
                 HC_CHECK(s_cache);
                 s_kind = K_LIFO;
             } else if (!strcmp(t[1], "lru")) {
-                s_cache = aws_cache_new_lru(hc_allocator(), s_hash, s_eq, kd, vd, max);
+                s_cache = aws_cache_new_lru(hc_allocator(), hfn, efn, kd, vd, max);
                 HC_CHECK(s_cache);
                 s_kind = K_LRU;
             } else {
@@ -428,7 +550,7 @@ int main(void) {
         } else if (s_kind == K_NONE) {
             printf("bad-op\n");
         } else if (!strcmp(t[0], "put") && n == 4) {
-            struct hkey *k = s_key_obj((unsigned)atoi(t[1]), (unsigned)atoi(t[2]));
+            void *k = s_key_obj((unsigned)atoi(t[1]), (unsigned)atoi(t[2]));
             HC_CHECK(s_nvals < MAX_VALS);
             struct hval *v = NULL;
             if (strtoul(t[3], NULL, 10) != 0) {
@@ -442,30 +564,24 @@ int main(void) {
             s_print_evs(true);
             s_print_state();
         } else if (!strcmp(t[0], "find") && n == 2) {
-            struct hkey probe_obj = {(unsigned)atoi(t[1]), 99};
-            struct hkey *probe = probe_obj.ident == NULL_IDENT ? NULL : &probe_obj;
+            const void *probe = s_begin_probe((unsigned)atoi(t[1]));
             void *p = NULL;
-            s_probe = probe;
             int rc = s_kind == K_LHT ? aws_linked_hash_table_find(&s_lht, probe, &p) : aws_cache_find(s_cache, probe, &p);
-            s_probe = NULL;
+            s_end_probe();
             HC_CHECK(rc == AWS_OP_SUCCESS);
             s_print_val("find", p);
             s_print_state();
         } else if (!strcmp(t[0], "findmv") && n == 2 && s_kind == K_LHT) {
-            struct hkey probe_obj = {(unsigned)atoi(t[1]), 99};
-            struct hkey *probe = probe_obj.ident == NULL_IDENT ? NULL : &probe_obj;
+            const void *probe = s_begin_probe((unsigned)atoi(t[1]));
             void *p = NULL;
-            s_probe = probe;
             HC_CHECK(aws_linked_hash_table_find_and_move_to_back(&s_lht, probe, &p) == AWS_OP_SUCCESS);
-            s_probe = NULL;
+            s_end_probe();
             s_print_val("findmv", p);
             s_print_state();
         } else if (!strcmp(t[0], "remove") && n == 2) {
-            struct hkey probe_obj = {(unsigned)atoi(t[1]), 99};
-            struct hkey *probe = probe_obj.ident == NULL_IDENT ? NULL : &probe_obj;
-            s_probe = probe;
+            const void *probe = s_begin_probe((unsigned)atoi(t[1]));
             int rc = s_kind == K_LHT ? aws_linked_hash_table_remove(&s_lht, probe) : aws_cache_remove(s_cache, probe);
-            s_probe = NULL;
+            s_end_probe();
             printf("P remove %s\n", hc_err(rc));
             s_print_evs(true);
             s_print_state();
